@@ -56,9 +56,12 @@ impl SourceFile {
             .file_name()
             .ok_or(std::io::Error::other("invalid path"))?;
         let module_name = if file_name == "mod.roto" {
+            // A `mod.roto` is named after its directory. The directory has no
+            // name if the file is given as `mod.roto` or `./mod.roto`. Then
+            // it is a single script, which is named after the file.
             path.parent()
-                .ok_or(std::io::Error::other("invalid path"))?
-                .file_name()
+                .and_then(|parent| parent.file_name())
+                .or(path.file_stem())
                 .ok_or(std::io::Error::other("invalid path"))?
         } else {
             path.file_stem()
